@@ -199,9 +199,9 @@ def run(res, tier, seed):
     quick = tier == "quick"
     jobs = {
         "hgr_bfs": lambda: gen_hgr(2, 3, 2),
-        "hgr_sim": lambda: gen_hgr(4, 9 if quick else 11, 3, simulate=12 if quick else 250, seed=seed + 11),
+        "hgr_sim": lambda: gen_hgr(4, 9 if quick else 11, 3, simulate=25 if quick else 250, seed=seed + 11),
         "hif_bfs": lambda: gen_hif(2, 2, 3, variants=(0, 1), types=("absent", "asc")),
-        "hif_sim": lambda: gen_hif(4, 3, 10 if quick else 12, simulate=12 if quick else 250, seed=seed + 13),
+        "hif_sim": lambda: gen_hif(4, 3, 10 if quick else 12, simulate=25 if quick else 250, seed=seed + 13),
     }
     if not quick:
         jobs["hgr_bfs3"] = lambda: gen_hgr(3, 3, 1)
@@ -227,7 +227,7 @@ def run(res, tier, seed):
         if i not in res.coverage["invariants"]:
             res.coverage["invariants"].append(i)
 
-    cap = 300 if quick else 4000
+    cap = 1000 if quick else 6000
     wd = tlc.workdir("c06r")
     cases, info = [], []
     try:
@@ -251,8 +251,7 @@ def run(res, tier, seed):
     finally:
         shutil.rmtree(wd, ignore_errors=True)
 
-    # CaseRunner re-reads the case file at every step (cost quadratic in the batch length): keep batches short
-    v = K.run_cases("Trace_C06R", cases, {"Kind": "hg"}, procs=12, per_batch=min(250, max(10, len(cases) // 12 + 1)))
+    v = K.run_cases("Trace_C06R", cases, {"Kind": "hg"}, procs=8, per_batch=min(4000, max(50, len(cases) // 8 + 1)))
     for idx, failed in v["rejects"]:
         c, more = cases[idx], info[idx]
         if "hgr_file_is_valid_and_covered" in failed or "hif_document_is_covered" in failed:
